@@ -1449,7 +1449,7 @@ def c20_stress(ctx):
                 for anch in (False, True):
                     extra.append(("seq", ([("bol",)] if anch else []) + [rep(x, mn, mx), nz, A] + ([("eol",)] if anch else [])))
     chosen = [("seq", ([("bol",)] if anch else []) + pre + [rep(("grp", False, b, 0), mn, mx)] + tail + ([("eol",)] if anch else []))
-              for pre, b, (mn, mx), tail, anch in r.sample(pats, ctx.scale(200, len(pats)))]
+              for pre, b, (mn, mx), tail, anch in r.sample(pats, ctx.scale(200, 1500))]
     # always included: a min-0, finite-max group over an ambiguous body behind a prefix that reaches it twice at one position
     amb = [("alt", [A, ("seq", [A, B])]), ("alt", [("seq", [A, B]), A]), ("alt", [A, ("seq", [A, A])]), ("alt", [("seq", [A, A]), A]), ("alt", [B, ("seq", [B, A]), A])]
     twice = [("seq", [("bol",)] + pre + [rep(("grp", False, b, 0), 0, mx)] + tail + [("eol",)])
@@ -1462,12 +1462,12 @@ def c20_stress(ctx):
             rw = [x for x in rw if "collapsed" in x[1] or "rt|st" in x[1] or "unwrapped" in x[1]] or rw
         alpha = "abc" if any(x == ("lit", "c") for x in tail) else "ab"
         pool = [s for s in rxlib.strings_upto(alpha, 6) if len(s) >= 2]
-        for ast2, law, ordered in (rw if (not ctx.quick() or ast in twice) else r.sample(rw, min(4, len(rw)))):
+        for ast2, law, ordered in (rw if ast in twice else r.sample(rw, min(ctx.scale(4, 8), len(rw)))):
             p2 = render(ast2)
             fe = features(ast) | features(ast2)
-            members = {derive(r, ast)[:9] for _ in range(ctx.scale(8, 40))}
+            members = {derive(r, ast)[:9] for _ in range(ctx.scale(8, 20))}
             members |= {"b" + m for m in list(members)[:2]} | {m + "a" for m in list(members)} | {m[:-1] + "aa" + m[-1:] for m in list(members)[:3]}
-            for s in r.sample(pool, ctx.scale(5, 40)) + sorted(members):
+            for s in r.sample(pool, ctx.scale(5, 20)) + sorted(members):
                 cs = [Case(p, "", "is_match", s), Case(p2, "", "is_match", s), Case(p, "", "analyze", s), Case(p2, "", "analyze", s)]
                 gs.append(Group(cs, {"features": fe, "input": s, "law": law, "ordered": ordered, "p2": p2}))
     return gs
